@@ -54,6 +54,56 @@ fn hman2(n1: &d2::Vector<f64>, n2: &d2::Vector<f64>, pts: &[(d2::Point<f64>, d2:
     s
 }
 
+
+// ---------------------------------------------------------------- primitive pairs through the dispatcher
+use crate::p3::shape::Shape as Shape3;
+fn shapes3(kind: usize, a: d3::Vector<f64>, b: d3::Vector<f64>, e: f64) -> (Box<dyn Shape3>, Box<dyn Shape3>) {
+    use crate::p3::shape::*;
+    let hs = |n: d3::Vector<f64>| -> Box<dyn Shape3> { Box::new(HalfSpace::new(d3::na::Unit::new_unchecked(n))) };
+    let cu = |he: d3::Vector<f64>| -> Box<dyn Shape3> { Box::new(Cuboid::new(he)) };
+    let ba = |r: f64| -> Box<dyn Shape3> { Box::new(Ball::new(r)) };
+    let ca = |p: d3::Vector<f64>| -> Box<dyn Shape3> { Box::new(Capsule::new_y(p.x, p.y)) };
+    let rc = |he: d3::Vector<f64>| -> Box<dyn Shape3> { Box::new(RoundCuboid { inner_shape: Cuboid::new(he), border_radius: e }) };
+    match kind {
+        0 => (ba(a.x), ba(b.x)),
+        1 => (cu(a), ba(b.x)),
+        2 => (ba(a.x), cu(b)),
+        3 => (hs(a), cu(b)),
+        4 => (cu(a), hs(b)),
+        5 => (hs(a), ca(b)),
+        6 => (ca(a), hs(b)),
+        7 => (hs(a), rc(b)),
+        8 => (rc(a), hs(b)),
+        9 => (cu(a), cu(b)),
+        _ => (ca(a), ca(b)),
+    }
+}
+
+/// `seq3 kind a b e pred nposes pose*` → `oneshot(flag dist)* ;; manifold after every call`
+fn seq3(a: &mut Args) -> String {
+    use crate::p3::query::{DefaultQueryDispatcher, PersistentQueryDispatcher, QueryDispatcher};
+    let kind = a.u(); let sa = d3::v(a); let sb = d3::v(a); let e = a.f(); let pred = a.f();
+    let n = a.u();
+    let poses: Vec<_> = (0..n).map(|_| d3::iso(a)).collect();
+    let (s1, s2) = shapes3(kind, sa, sb, e);
+    let mut manifolds: Vec<M3> = Vec::new();
+    let mut ws = None;
+    let mut obs = String::new();
+    let mut out = String::new();
+    for p in &poses {
+        // one-shot reference; for (X, halfspace) evaluate the (halfspace, X) route (the other one is a C02/C03 finding)
+        let hs2 = s2.as_halfspace().is_some();
+        let os = if hs2 { DefaultQueryDispatcher.contact(&p.inverse(), &*s2, &*s1, pred) } else { DefaultQueryDispatcher.contact(p, &*s1, &*s2, pred) };
+        match os { Ok(Some(c)) => obs += &format!("1 {} ", ff(c.dist)), _ => obs += "0 0000000000000000 " }
+        let r = DefaultQueryDispatcher.contact_manifolds(p, &*s1, &*s2, pred, &mut manifolds, &mut ws);
+        if r.is_err() { return "unsupported".into(); }
+        if manifolds.len() != 1 { return format!("nmanifolds {}", manifolds.len()); }
+        if !out.is_empty() { out.push(' '); }
+        out += &fman3(&manifolds[0]);
+    }
+    format!("{};; {}", obs, out)
+}
+
 // ---------------------------------------------------------------- exec
 pub fn exec(func: &str, a: &mut Args) -> String {
     match func {
@@ -72,6 +122,10 @@ pub fn exec(func: &str, a: &mut Args) -> String {
                 None => "none".into(),
                 Some(c) => { let i = m.points.iter().position(|x| std::ptr::eq(x, c)).unwrap(); format!("some {}", i) } } }
         "take3" => { let mut m = man3(a); let r = m.take(); format!("{} {}", fman3(&r), fman3(&m)) }
+        "bb3" => { let p = d3::iso(a); let r1 = a.f(); let r2 = a.f(); let pr = a.f(); let mut m = man3(a);
+            crate::p3::query::details::contact_manifold_ball_ball(&p, &crate::p3::shape::Ball::new(r1), &crate::p3::shape::Ball::new(r2), pr, &mut m);
+            fman3(&m) }
+        "seq3" => seq3(a),
         _ => "nofn".into(),
     }
 }
@@ -175,6 +229,95 @@ fn gen_tuc2(r: &mut Rng, lat: bool) -> (String, String) {
     if r.below(3) == 0 { ("tuc2_default".into(), args) } else { ("tuc2".into(), format!("{} {} {}", args, hx(thr), hx(dsq))) }
 }
 
+
+fn gen_bb3(r: &mut Rng, lat: bool) -> (String, String) {
+    let r1 = r.pos_extent(lat); let r2 = r.pos_extent(lat);
+    let q = d3::gen_quat(r, lat);
+    let dir = unit3(r, lat);
+    let gap = if lat { *r.pick(&[0.0, 0.25, -0.25, 0.5, 1.0, -100.0]) } else { match r.below(4) { 0 => r.uniform(-1e-6, 1e-6), 1 => r.uniform(-0.5, 0.5) * (r1 + r2), _ => r.uniform(-0.1, 0.3) } };
+    let t = if gap == -100.0 { d3::Vector::zeros() } else { dir * (r1 + r2 + gap) };
+    let p = d3::Isometry::from_parts(d3::na::Translation3::from(t), d3::na::Unit::new_unchecked(d3::na::Quaternion::new(q[3], q[0], q[1], q[2])));
+    let pred = if lat { *r.pick(&[0.0, 0.25, 0.5]) } else { *r.pick(&[0.0, 1e-3, 0.05, 0.2]) };
+    // prior manifold: empty, one stale point, or several stale points
+    let npts = *r.pick(&[0usize, 0, 1, 1, 2, 3]);
+    let pts: Vec<_> = (0..npts).map(|_| (d3::gen_p(r, lat, 2.0), d3::gen_p(r, lat, 2.0), r.coord(lat, 1.0))).collect();
+    ("bb3".into(), format!("{} {} {} {} {}", d3::hiso(&p), hx(r1), hx(r2), hx(pred), hman3(&unit3(r, lat), &unit3(r, lat), &pts)))
+}
+
+/// a pose sequence: small steps, medium steps, jumps to separation and returns near the base pose
+fn gen_poses3(r: &mut Rng, lat: bool, base: d3::Isometry<f64>, scale: f64, n: usize) -> Vec<d3::Isometry<f64>> {
+    let mut v = vec![base];
+    let mut cur = base;
+    for _ in 1..n {
+        let k = r.below(20);
+        if lat {
+            if k < 11 { cur.translation.vector += d3::gen_v(r, true, 1.0) * 0.03125; }
+            else if k < 14 { cur.translation.vector += d3::gen_v(r, true, 1.0) * 0.25;
+                let q = d3::gen_quat(r, true); cur.rotation = d3::na::Unit::new_unchecked(d3::na::Quaternion::new(q[3], q[0], q[1], q[2])); }
+            else if k < 16 { cur.translation.vector += unit3(r, true) * (64.0 * scale); }     // separation
+            else if k < 19 { cur = base; cur.translation.vector += d3::gen_v(r, true, 1.0) * 0.0625; }   // re-contact
+            else { /* same pose again */ }
+        } else {
+            if k < 11 { let s = r.logu(1e-5, 3e-2) * scale;
+                cur.translation.vector += d3::Vector::new(r.uniform(-1.0, 1.0), r.uniform(-1.0, 1.0), r.uniform(-1.0, 1.0)) * s;
+                cur.rotation = { let ang = r.uniform(0.0, 0.02); small_quat(r, ang) } * cur.rotation; }
+            else if k < 14 { cur.translation.vector += d3::Vector::new(r.uniform(-1.0, 1.0), r.uniform(-1.0, 1.0), r.uniform(-1.0, 1.0)) * (0.3 * scale);
+                cur.rotation = { let ang = r.uniform(0.0, 1.0); small_quat(r, ang) } * cur.rotation; }
+            else if k < 16 { cur.translation.vector += unit3(r, false) * (r.uniform(5.0, 50.0) * scale); }
+            else if k < 19 { cur = base; cur.translation.vector += d3::Vector::new(r.uniform(-1.0, 1.0), r.uniform(-1.0, 1.0), r.uniform(-1.0, 1.0)) * (0.02 * scale);
+                cur.rotation = { let ang = r.uniform(0.0, 0.05); small_quat(r, ang) } * cur.rotation; }
+            else { }
+        }
+        v.push(cur);
+    }
+    v
+}
+
+fn gen_seq3(r: &mut Rng, lat: bool, kind: usize, maxposes: usize) -> (String, String) {
+    let ball = |r: &mut Rng| d3::Vector::new(r.pos_extent(lat).min(8.0).max(0.05), 0.0, 0.0);
+    let cub = |r: &mut Rng| { let h = d3::gen_he(r, lat); d3::Vector::new(h.x.min(8.0).max(0.05), h.y.min(8.0).max(0.05), h.z.min(8.0).max(0.05)) };
+    let cap = |r: &mut Rng| d3::Vector::new(r.pos_extent(lat).min(4.0).max(0.05), r.pos_extent(lat).min(2.0).max(0.05), 0.0);
+    let hsn = |r: &mut Rng| unit3(r, lat);
+    let (a, b) = match kind {
+        0 => (ball(r), ball(r)), 1 => (cub(r), ball(r)), 2 => (ball(r), cub(r)),
+        3 | 7 => (hsn(r), cub(r)), 4 | 8 => (cub(r), hsn(r)),
+        5 => (hsn(r), cap(r)), 6 => (cap(r), hsn(r)),
+        9 => (cub(r), cub(r)), _ => (cap(r), cap(r)),
+    };
+    let e = if kind == 7 || kind == 8 { if lat { *r.pick(&[0.25, 0.5]) } else { r.uniform(0.01, 0.5) } } else { 0.0 };
+    let size = |k: usize, v: &d3::Vector<f64>| -> f64 { match k { 0 => v.x, 1 => v.norm(), 2 => 0.0, _ => v.x + v.y } };
+    // kind -> (type of shape1, type of shape2): 0 ball 1 cuboid 2 halfspace 3 capsule
+    let ty = match kind { 0 => (0, 0), 1 => (1, 0), 2 => (0, 1), 3 | 7 => (2, 1), 4 | 8 => (1, 2), 5 => (2, 3), 6 => (3, 2), 9 => (1, 1), _ => (3, 3) };
+    let scale = (size(ty.0, &a) + size(ty.1, &b) + e).max(0.1);
+    // base pose: near contact
+    let q = d3::gen_quat(r, lat);
+    let rot = d3::na::Unit::new_unchecked(d3::na::Quaternion::new(q[3], q[0], q[1], q[2]));
+    let t = match kind {
+        0 => { let gap = if lat { *r.pick(&[0.0, 0.25, -0.25, -100.0]) } else { r.uniform(-0.3, 0.3) * scale.min(1.0) };
+               if gap == -100.0 { d3::Vector::zeros() } else { unit3(r, lat) * (a.x + b.x + gap) } }
+        1 => { // ball centre around the cuboid surface (inside, outside, on faces/edges)
+               let f = |r: &mut Rng, h: f64| if lat { *r.pick(&[0.0, 1.0, -1.0, 0.5, 1.5, -1.25]) * h } else { r.uniform(-1.4, 1.4) * h };
+               let c = d3::Vector::new(f(r, a.x), f(r, a.y), f(r, a.z));
+               if r.below(3) == 0 { c + unit3(r, lat) * b.x } else { c } }
+        2 => { let f = |r: &mut Rng, h: f64| if lat { *r.pick(&[0.0, 1.0, -1.0, 0.5, 1.5, -1.25]) * h } else { r.uniform(-1.4, 1.4) * h };
+               let c = d3::Vector::new(f(r, b.x), f(r, b.y), f(r, b.z));
+               // pos12 = cuboid pose in the ball frame; ball centre at `c` in the cuboid frame: t = -R c
+               -(rot * c) }
+        3 | 5 | 7 => { let h = if lat { *r.pick(&[0.0, 0.25, 0.5, 1.0, -0.25]) } else { r.uniform(-0.3, 1.3) }; a * (h * scale) + d3::gen_v(r, lat, 2.0) * 0.5 }
+        4 | 6 | 8 => { let h = if lat { *r.pick(&[0.0, 0.25, 0.5, 1.0, -0.25]) } else { r.uniform(-0.3, 1.3) };
+               // halfspace is shape 2: its plane passes through t with normal R b; put it below the cuboid
+               -(rot * b) * (h * scale) + d3::gen_v(r, lat, 2.0) * 0.5 }
+        _ => unit3(r, lat) * (r.uniform(0.3, 1.1) * scale),
+    };
+    let base = d3::Isometry::from_parts(d3::na::Translation3::from(t), rot);
+    let n = 1 + r.below(maxposes as u64) as usize;
+    let poses = gen_poses3(r, lat, base, scale, n);
+    let pred = if lat { *r.pick(&[0.0, 0.25, 0.5]) } else { *r.pick(&[0.0, 1e-3, 0.05, 0.2]) * scale.min(2.0) };
+    let mut s = format!("{} {} {} {} {} {}", kind, d3::hv(&a), d3::hv(&b), hx(e), hx(pred), n);
+    for p in &poses { s += " "; s += &d3::hiso(p); }
+    ("seq3".into(), s)
+}
+
 pub fn gen(r: &mut Rng, thorough: bool) -> Vec<(String, String)> {
     let k = if thorough { 10 } else { 1 };
     let mut v = Vec::new();
@@ -194,6 +337,14 @@ pub fn gen(r: &mut Rng, thorough: bool) -> Vec<(String, String)> {
         let npts: usize = toks[7 + 6].parse().unwrap();
         let mtoks = &toks[7..7 + 7 + 7 * npts];
         v.push(("take3".into(), mtoks.join(" ")));
+    }
+    for it in 0..400 * k {
+        let lat = it % 2 == 0;
+        v.push(gen_bb3(r, lat));
+    }
+    for it in 0..90 * k {
+        let lat = it % 2 == 0;
+        for kind in 0..9 { v.push(gen_seq3(r, lat, kind, 20)); }
     }
     v
 }
